@@ -118,7 +118,7 @@ class Exec:
     def __init__(self, mod, repo, leaf, nt_funcs=None, start=None, max_depth=40):
         self.mod = mod
         self.repo = repo.rstrip('/') + '/'
-        self.leaf = leaf
+        self.leafspec = leaf
         self.nt_funcs = nt_funcs or {}
         self.start = start
         self.max_depth = max_depth
@@ -151,32 +151,35 @@ class Exec:
                 self._vt[name] = slots
         return self._vt
 
-    def slot_name(self, nslot_hint, slot, this_ty):
-        """source name of the virtual function in 'slot' of the class hierarchy whose static type is
-        this_ty: taken from the vtables of the unit (all vtables that extend the static class's one)"""
+    def bases(self, vtsym):
+        """transitive RTTI bases of the class of a vtable symbol, as vtable symbols"""
+        out = set()
+        todo = ['_ZTI' + vtsym[4:]]
+        while todo:
+            ti = todo.pop()
+            g = self.mod.globals.get(ti)
+            if g is None:
+                continue
+            for ref in _global_refs(g.get('init')):
+                if ref.startswith('_ZTI') and ref != ti and ('_ZTV' + ref[4:]) not in out:
+                    out.add('_ZTV' + ref[4:])
+                    todo.append(ref)
+        return out
+
+    def slot_name(self, slot, this_ty):
+        """source name of the virtual function in 'slot' of the hierarchy rooted at the static class
+        this_ty: read from the vtables of the classes that (by their RTTI) derive from it"""
         vts = self.vtables()
         cls = this_ty.rstrip('*').strip('%"')
         cls = cls.split('.', 1)[1] if '.' in cls else cls
-        base = None
-        for name, slots in vts.items():
-            if _vt_class(name) == cls:
-                base = slots
-        if base is None:
+        base = [name for name in vts if _vt_class(name) == cls]
+        if not base:
             raise Unsupported('virtual call on %s: no vtable of that class in the unit' % cls)
         names = set()
         for name, slots in vts.items():
-            if len(slots) < len(base) or slot >= len(slots):
+            if name != base[0] and base[0] not in self.bases(name):
                 continue
-            ok = True
-            for k, b in enumerate(base):
-                if b in (None, '__cxa_pure_virtual'):
-                    continue
-                fb, fd = self.mod.fn(b), self.mod.fn(slots[k]) if slots[k] else None
-                nb = fb.srcname if fb is not None else b
-                nd = fd.srcname if fd is not None else slots[k]
-                if nb != nd and not (nb.startswith('~') and (nd or '').startswith('~')):
-                    ok = False
-            if not ok:
+            if slot >= len(slots):
                 continue
             fn = slots[slot]
             if fn in (None, '__cxa_pure_virtual'):
@@ -239,7 +242,7 @@ class Exec:
         """-> [(St, return term)]"""
         if len(stack) > self.max_depth:
             raise Unsupported('call depth exceeded at %s' % f.name)
-        fr = Frame(f, list(args), stack + (f.qualname,))
+        fr = Frame(f, list(args), stack + ((f.qualname, f.file, f.line),))
         outs = self.run_block(fr, f.entry, None, st)
         res = []
         for (s, kind, payload) in outs:
@@ -401,6 +404,8 @@ class Exec:
             nxt = cur.fork()
             for (s, kind, _p) in outs:
                 for base, m in s.mem.items():
+                    if _younger(base, lid):
+                        continue        # local of a frame inlined inside the iteration
                     m0 = cur.mem.get(base, {})
                     if m != m0 or s.hav.get(base) != cur.hav.get(base):
                         if not (base in nxt.hav and nxt.hav[base] == ('loop', lid)):
@@ -408,6 +413,8 @@ class Exec:
                             nxt.hav[base] = ('loop', lid)
                             changed = True
                 for cpt, sz in s.sizes.items():
+                    if _younger(cpt, lid):
+                        continue
                     if cur.sizes.get(cpt) != sz:
                         nxt.sizes[cpt] = ('lv', lid, 'size')
                         changed = changed or cur.sizes.get(cpt) != ('lv', lid, 'size')
@@ -452,8 +459,10 @@ class Exec:
         c, stay = ex['cond'], ex['stay']
         if c[0] == 'icmp':
             pred, a, b = c[1], strip_ext(c[2]), c[3]
-            if a[0] == 'iv' and a[1] == lid and init.get(a[2]) == C(0) and not has_kind(b, ('iv', 'lv', 'hv')):
+            i0 = init.get(a[2]) if a[0] == 'iv' else None
+            if a[0] == 'iv' and a[1] == lid and i0 is not None and is_const(i0) and not has_kind(b, ('iv', 'lv', 'hv')):
                 ok_pred = (stay and pred in ('slt', 'ult', 'ne')) or ((not stay) and pred in ('sge', 'uge', 'eq'))
+                incl = (stay and pred in ('sle', 'ule')) or ((not stay) and pred in ('sgt', 'ugt'))
                 steps = set()
                 phi = [p for p in phis if p.id == a[2]][0]
                 for lv in ctx['latch_vals']:
@@ -461,8 +470,10 @@ class Exec:
                         if fr.f.bmap[bb] in L['blocks']:
                             t = lv.get(v.id) if v.k == 'inst' else None
                             steps.add(t)
-                if ok_pred and steps == {('op', 'add', a, C(1))}:
-                    return b
+                if (ok_pred or incl) and steps == {('op', 'add', a, C(1))}:
+                    n = b
+                    k = (1 if incl else 0) - i0[1]
+                    return n if k == 0 else ('op', 'add', n, C(k))
         if c[0] == 'call' and len(c) == 4:
             name = c[1]
             if (name.startswith('operator!=') and stay) or (name.startswith('operator==') and not stay):
@@ -487,7 +498,7 @@ class Exec:
                     if not bad and adv == 1:
                         cont = ia[2]
                         return pre.sizes.get(cont, ('size', cont))
-        return ('unknown-count', c, stay)
+        raise Unsupported('loop of %s: trip count idiom not recognised (exit test %s)' % (fr.f.qualname, fmt_term(c)))
 
     # ------------------------------------------------------------------ instructions
     def step(self, fr, i, st):
@@ -630,8 +641,8 @@ class Exec:
                 raise Unsupported('indirect call in %s' % fr.f.name)
             this_v = i.ops[0]
             this_ty = fr.f.params[this_v.argno]['ty']['s'] if this_v.k == 'arg' else fr.f.insts[this_v.id].ty.get('s', '')
-            name = self.slot_name(None, slot, this_ty)
-            kind = self.leaf.virtual.get(name)
+            name = self.slot_name(slot, this_ty)
+            kind = self.leafspec.virtual.get(name)
             if kind is None:
                 raise Unsupported('virtual call to %s in %s' % (name, fr.f.name))
             self.leaf(fr, i, st, kind, args)
@@ -645,7 +656,7 @@ class Exec:
             return
         f = self.mod.fn(callee)
         if f is not None:
-            kind = self.leaf.direct(f)
+            kind = self.leafspec.direct(f)
             if kind is not None:
                 self.leaf(fr, i, st, kind, args)
                 return
@@ -730,6 +741,23 @@ class Exec:
             fr.vals[i.id] = ('void',)
         else:
             fr.vals[i.id] = term
+
+
+def _younger(t, lid):
+    return any(isinstance(x, tuple) and x and x[0] == 'alloca' and x[1] > lid for x in subterms(t))
+
+
+def _global_refs(x):
+    if isinstance(x, dict):
+        if x.get('k') == 'global':
+            yield x['name']
+        for v in x.values():
+            for r in _global_refs(v):
+                yield r
+    elif isinstance(x, list):
+        for v in x:
+            for r in _global_refs(v):
+                yield r
 
 
 def callee_is_writer(f):
@@ -868,7 +896,7 @@ def fmt_term(t):
     if k == 'N':
         return 'N%d' % t[1]
     if k == 'wire':
-        return 'wire%d' % t[1]
+        return 'w%d' % t[1]
     if k == 'size':
         return 'size(%s)' % fmt_term(t[1])
     if k == 'arg':
@@ -891,7 +919,8 @@ def fmt_term(t):
     if k == 'select':
         return '(%s?%s:%s)' % (fmt_term(t[1]), fmt_term(t[2]), fmt_term(t[3]))
     if k == 'icmp':
-        return '%s %s %s' % (fmt_term(t[2]), t[1], fmt_term(t[3]))
+        sym = {'eq': '==', 'ne': '!=', 'lt': '<', 'le': '<=', 'gt': '>', 'ge': '>='}.get(t[1][-2:], t[1])
+        return '%s %s %s' % (fmt_term(t[2]), sym, fmt_term(t[3]))
     return k
 
 
@@ -907,12 +936,13 @@ def fmt_lin(l):
 class Grammar:
     """canonical byte grammar of one path"""
 
-    def __init__(self, tokens, side, param_bits=None, fits16=()):
+    def __init__(self, tokens, side, param_bits=None, conds=()):
         self.side = side
-        self.nz = Norm(fits16, param_bits)
+        self.nz = Norm((), param_bits)
         self.flat = []          # grammar tokens in DFS order (for N numbering and members)
         self.raw_tokens = grammar_tokens(tokens)
         self._number(self.raw_tokens)
+        self.nz.fits16 = fits16_from_conds(conds, self.nz)
         self.items = self._items(self.raw_tokens)
 
     # N numbering: every fixed-size token gets an ordinal; a later length / count that equals the
@@ -941,21 +971,27 @@ class Grammar:
         self.flat = order
         n = 0
         later = [self.nz.norm(x) for x in self._all_terms(toks)]
+        latersub = set()
+        for x in later:
+            latersub.update(subterms(x))
+        k = 0
         for t in order:
             if t['k'] != 'raw' or not is_const(t['len']):
                 continue
-            t['ord'] = n
+            t['ord'] = k
+            k += 1
             bits = t['len'][1] * 8
+            key = None
             if self.side == 'r' and t.get('wire') is not None:
-                self.nz.subst[t['wire']] = ('N', n, bits)
+                key = t['wire']
             elif self.side == 'w' and t.get('val') is not None:
                 v = self.nz.norm(t['val'])
-                if not is_const(v) and v[0] not in ('undef', 'partial', 'hv') and not (v[0] == 'load') \
-                        and any(v in set(subterms(x)) for x in later):
-                    self.nz.subst[v] = ('N', n, bits)
-                elif v[0] == 'load' and any(v in set(subterms(x)) for x in later):
-                    self.nz.subst[v] = ('N', n, bits)
-            n += 1
+                if not is_const(v) and v[0] not in ('undef', 'partial', 'hv'):
+                    key = v
+            if key is not None and key in latersub and key not in self.nz.subst:
+                self.nz.subst[key] = ('N', n, bits)
+                t['count_id'] = n
+                n += 1
 
     def _items(self, toks):
         out = []
@@ -1023,17 +1059,26 @@ class Grammar:
         return f(self.raw_tokens)
 
 
+def _nonneg(t):
+    return t[0] == 'zext' or (t[0] == 'c' and t[1] >= 0)
+
+
 def fits16_from_conds(conds, nz):
-    """x <u y with y a 16 bit value  =>  x fits 16 bits on this path"""
+    """x <u y with y a 16 bit value  =>  x fits 16 bits on this path (signed comparisons of zero-extended
+    operands count as unsigned)"""
     out = set()
     for (c, pol) in conds:
         if c[0] != 'icmp':
             continue
-        pred, a, b = c[1], nz.norm(c[2]), nz.norm(c[3])
-        if (pred == 'ult' and pol) or (pred == 'uge' and not pol):
+        pred = c[1]
+        if pred[0] == 's' and not (_nonneg(c[2]) and _nonneg(c[3])):
+            continue
+        p = pred[-2:] if pred not in ('eq', 'ne') else pred
+        a, b = nz.norm(c[2]), nz.norm(c[3])
+        if (p in ('lt', 'le') and pol) or (p in ('ge', 'gt') and not pol):
             if nz.bits(b) <= 16:
                 out.add(a)
-        if (pred == 'ugt' and pol) or (pred == 'ule' and not pol):
+        if (p in ('gt', 'ge') and pol) or (p in ('le', 'lt') and not pol):
             if nz.bits(a) <= 16:
                 out.add(b)
     return out
